@@ -53,17 +53,23 @@ pub fn run(cx: &mut Ctx) {
     let n_pairs = 160 * crate::scale();
     let mut pairs: Vec<(String, Circuit, Circuit)> = vec![];
     for k in 0..n_pairs {
-        let n = if k % 6 == 5 { 2 + r.below(3) as usize } else { 1 + r.below(3) as usize };
+        let n = if k % 7 >= 5 { 2 + r.below(3) as usize } else { 1 + r.below(3) as usize };
         let len = 2 + r.below(8); let c = random_circuit(&mut r, n, len);
-        let d = match k % 6 {
+        let d = match k % 7 {
             0 => variant(&mut r, &c, false),                                      // equal
             1 => variant(&mut r, &c, true),                                       // equal up to a global phase only
             2 => { let mut d = variant(&mut r, &c, false); d.add_gate(["t", "s", "h", "x"][r.below(4) as usize], vec![r.below(n as u64) as usize]); d }   // one more gate
             3 => { let len = 2 + r.below(8); random_circuit(&mut r, n, len) }                      // unrelated, same arity
             4 => random_circuit(&mut r, 1 + (n % 3), 3),                          // (mostly) different arity
+            6 => {                                                                // differs by a wire permutation only (as swap gates or as three CNOTs)
+                let mut d = if r.below(3) == 0 { c.clone() } else { variant(&mut r, &c, false) };
+                let a = r.below(n as u64) as usize; let mut b = r.below(n as u64 - 1) as usize; if b >= a { b += 1; }
+                if r.below(2) == 0 { d.add_gate("swap", vec![a, b]); } else { d.add_gate("cx", vec![a, b]); d.add_gate("cx", vec![b, a]); d.add_gate("cx", vec![a, b]); }
+                if n >= 3 && r.below(2) == 0 { let c2 = (0..n).find(|q| *q != a && *q != b).unwrap(); d.add_gate("swap", vec![b, c2]); }
+                d }
             _ => { let m = 12 + r.below(14); let x = random_circuit(&mut r, n, m); let mut d = variant(&mut r, &c, false); d += &x; d += &x.to_adjoint(); d }   // equal, but hard to cancel: a long random section followed by its adjoint
         };
-        pairs.push((format!("kind {} | {:?} | {:?}", k % 6, c.gates.iter().map(|g| format!("{:?}{:?}", g.t, g.qs)).collect::<Vec<_>>(), d.gates.iter().map(|g| format!("{:?}{:?}", g.t, g.qs)).collect::<Vec<_>>()), c, d));
+        pairs.push((format!("kind {} | {:?} | {:?}", k % 7, c.gates.iter().map(|g| format!("{:?}{:?}", g.t, g.qs)).collect::<Vec<_>>(), d.gates.iter().map(|g| format!("{:?}{:?}", g.t, g.qs)).collect::<Vec<_>>()), c, d));
     }
     // equal pairs that rewriting does NOT cancel: the 4-qubit "spider nest" (T on odd, T-dagger on even subsets as parity phases over all 15
     // non-empty subsets = the identity), alone and after a random circuit — here the honest answer of the rewriting check is "unknown"
@@ -75,6 +81,20 @@ pub fn run(cx: &mut Ctx) {
             let c = if k == 0 { Circuit::new(4) } else { random_circuit(&mut r, 4, 3 + k) };
             let mut d = c.clone(); d += &nest(4);
             pairs.push((format!("kind nest | {} gates | the same followed by the 4-qubit spider nest", c.gates.len()), c, d));
+        }
+    }
+    // differences that survive simplification on BARE wires: the empty circuit against a permutation / a Hadamard on a wire / both
+    for n in 2usize..=4 {
+        let e = Circuit::new(n);
+        let mut sw = Circuit::new(n); sw.add_gate("swap", vec![0, n - 1]);
+        let mut cn = Circuit::new(n); cn.add_gate("cx", vec![0, 1]); cn.add_gate("cx", vec![1, 0]); cn.add_gate("cx", vec![0, 1]);
+        let mut cyc = Circuit::new(n); for q in 0..n - 1 { cyc.add_gate("swap", vec![q, q + 1]); }
+        let mut hd = Circuit::new(n); hd.add_gate("h", vec![n - 1]);
+        let mut hs = Circuit::new(n); hs.add_gate("h", vec![0]); hs.add_gate("swap", vec![0, 1]); hs.add_gate("h", vec![1]);   // = swap
+        let mut ss = Circuit::new(n); ss.add_gate("swap", vec![0, 1]); ss.add_gate("swap", vec![0, 1]);                     // = identity
+        for (what, d) in [("swap", sw), ("three CNOTs", cn), ("cyclic shift", cyc), ("one Hadamard", hd), ("H swap H", hs), ("swap swap", ss)] {
+            pairs.push((format!("kind bare | empty {}-qubit circuit | {}", n, what), e.clone(), d.clone()));
+            pairs.push((format!("kind bare | {} | empty {}-qubit circuit", what, n), d, e.clone()));
         }
     }
     cx.check("definite_answers_are_right", |cb| {
